@@ -355,6 +355,13 @@ func RunCheck(cfg CheckConfig) int {
 					defer natRace.Close()
 				}
 				rr, rerr := natRace.Run(pkg, []NativeItem{{ID: "r", Harness: v.Harness, Vector: v.Vector}}, 20000)
+				// the Go race detector only reports a race whose two accesses it still remembers in
+				// the run at hand: a few more native runs (different GOMAXPROCS) before giving up
+				for try, procs := 0, []string{"4", "2", "16", "1", "8", "3"}; rerr == nil && (rr["r"] == nil || !rr["r"].Race) && try < len(procs); try++ {
+					natRace.ExtraEnv = []string{"GOMAXPROCS=" + procs[try]}
+					rr, rerr = natRace.Run(pkg, []NativeItem{{ID: "r", Harness: v.Harness, Vector: v.Vector}}, 20000)
+					natRace.ExtraEnv = nil
+				}
 				if rerr != nil {
 					problems = append(problems, hd.Name+": race replay failed: "+rerr.Error())
 					continue
